@@ -22,14 +22,18 @@ CHECKS = ["C04_NoPanic", "C04_Refusal", "C04_SetPath", "C04_UserPrecedence", "C0
 PLAN = {
     "quick": [
         ("pair",  dict(Full=False, SetPairs=False), None),
+        ("deep",  dict(Full=False, SetPairs=False), None),
         ("sub2",  dict(Full=False, SetPairs=False), None),
+        ("deepsub", dict(Full=False, SetPairs=False), None),
         ("sub3",  dict(Full=False, SetPairs=False), 6000),
         ("flags", dict(Full=False, SetPairs=False), None),
         ("set",   dict(Full=False, SetPairs=False), None),
     ],
     "thorough": [
         ("pair",  dict(Full=True, SetPairs=False), None),
+        ("deep",  dict(Full=True, SetPairs=False), None),
         ("sub2",  dict(Full=True, SetPairs=False), None),
+        ("deepsub", dict(Full=True, SetPairs=False), None),
         ("sub3",  dict(Full=True, SetPairs=False), None),
         ("flags", dict(Full=True, SetPairs=False), None),
         ("set",   dict(Full=True, SetPairs=True), None),
@@ -41,7 +45,7 @@ SIMS = {
               ("set", dict(Full=True, SetPairs=True), 1000)],
     "thorough": [("flags", dict(Full=True, SetPairs=True), 6000), ("set", dict(Full=True, SetPairs=True), 6000)],
 }
-NSTAGES = {"pair": 2, "sub2": 3, "sub3": 4, "flags": 8, "set": 2}
+NSTAGES = {"pair": 2, "deep": 2, "deepsub": 3, "sub2": 3, "sub3": 4, "flags": 8, "set": 2}
 
 # ---------------------------------------------------------------------------------------
 # known findings: recognised by the specific input
